@@ -606,6 +606,72 @@ func ruleHeadingsServed(w *World, r *Report) {
 			}
 		}
 	}
+	// helpers in which every path to a return passes a serving step (Put, Generate stored as id, or another such helper):
+	// "reserve the explicit id or generate one" extracted into a function
+	for round := 0; round < 3; round++ {
+		for _, fn := range w.Funcs {
+			if servesAll[fn] || w.PkgOf(fn) != modPath+"/parser" || fn.Blocks == nil {
+				continue
+			}
+			servesIns := func(ins ssa.Instruction) bool {
+				c, ok := ins.(ssa.CallInstruction)
+				if !ok {
+					return false
+				}
+				if isPut(c) {
+					// reserving counts only for an id that was found on the node (an explicit attribute), not for a
+					// value the helper makes up itself
+					fromAttr := false
+					operandsClosure(c.Common().Args[0], func(v ssa.Value) bool {
+						if ac, ok := v.(*ssa.Call); ok {
+							if _, _, ok := methodCallOn(ac, "AttributeString"); ok {
+								fromAttr = true
+							}
+							if _, _, ok := methodCallOn(ac, "Attribute"); ok {
+								fromAttr = true
+							}
+						}
+						return !fromAttr
+					})
+					return fromAttr
+				}
+				if cc, ok := ins.(*ssa.Call); ok && isGenerate(c) && storesAsID(fn, cc) {
+					return true
+				}
+				if cal := c.Common().StaticCallee(); cal != nil && servesAll[cal] {
+					return true
+				}
+				return false
+			}
+			any := false
+			leak := false
+			seen := map[*ssa.BasicBlock]bool{}
+			var dfs func(b *ssa.BasicBlock)
+			dfs = func(b *ssa.BasicBlock) {
+				if leak || seen[b] {
+					return
+				}
+				seen[b] = true
+				for _, ins := range b.Instrs {
+					if servesIns(ins) {
+						any = true
+						return
+					}
+					if _, isRet := ins.(*ssa.Return); isRet {
+						leak = true
+						return
+					}
+				}
+				for _, sx := range b.Succs {
+					dfs(sx)
+				}
+			}
+			dfs(fn.Blocks[0])
+			if any && !leak {
+				servesAll[fn] = true
+			}
+		}
+	}
 	n := 0
 	for _, t := range w.Implementers(bp) {
 		open := w.MethodOf(t, "Open")
